@@ -650,17 +650,8 @@ def process_response(
                 abort_on_error=abort_on_error,
             )
             size_constraints.append(parameter_size_constraint)
-        if field.name == "authorizationArea":
-            parameter_encryption_expected = (
-                is_parameter_encryption(
-                    authorizationArea=element_value, for_response=True
-                )
-                or None
-            )
-            # TODO yield Warning
-            assert (
-                parameter_encryption == parameter_encryption_expected
-            ), f"Started parsing Response with parameter_encryption = {parameter_encryption}, but authorizationArea.sessionAttributes.encrypt = {parameter_encryption_expected}."
+        # Note: parameter_encryption might contradict authorizationArea.sessionAttributes.encrypt. The parameters are
+        # already parsed by then and the input is not under our control, so this must not be an assertion.
 
         values[field.name] = element_value
 
